@@ -66,7 +66,7 @@ type PathResult struct {
 
 func (w *Worker) newPath(h *ssa.Function, prefix []int) *Path {
 	e := w.eng
-	return &Path{w: w, harness: h.Name(), prefix: prefix, dom: map[*Var]*bitset{}, ent: map[*Var]bool{},
+	return &Path{w: w, harness: h.Name(), harnessRel: e.relDirOf(h), prefix: prefix, dom: map[*Var]*bitset{}, ent: map[*Var]bool{},
 		maxSteps: e.maxSteps, maxDepth: e.maxDepth, globals: map[*ssa.Global]*Value{}, initDone: map[*ssa.Package]bool{},
 		side: map[*Value]interface{}{}, asserts: map[string]bool{}, covers: map[string]bool{}, coverSeen: map[string]bool{},
 		witnessed: map[string]bool{}, ufApps: map[string][]*Term{}, modelsHit: map[string]bool{}, fnsHit: map[*ssa.Function]bool{},
